@@ -1121,7 +1121,11 @@ func (x *Exec) applyAssigns(s *State, fi *FuncInfo, ct *Contract, env map[types.
 		}
 		return
 	}
-	// allocation may always grow
+	// allocation may always grow; a callee that writes nothing and neither takes nor returns references cannot
+	// make an allocation of its own observable, so the counters are left alone (keeps real-arithmetic VCs pure)
+	if len(ct.Assigns) == 0 && valueOnly(sig) && valueResults(sig) {
+		return
+	}
 	for _, k := range []string{"$alloc", "$balloc"} {
 		old := x.heapGet(s, k, SInt)
 		x.havocHeap(s, k)
@@ -1456,6 +1460,15 @@ func (x *Exec) callSpecHelper(s *State, fn *types.Func, call *ast.CallExpr) []*T
 }
 
 // valueOnly: receiver and parameters carry no references (results are then a function of the arguments)
+// valueResults: no result of sig contains a reference (pointer, slice, map, interface, string, func, chan)
+func valueResults(sig *types.Signature) bool {
+	rs := make([]*types.Var, 0, sig.Results().Len())
+	for i := 0; i < sig.Results().Len(); i++ {
+		rs = append(rs, sig.Results().At(i))
+	}
+	return valueOnly(types.NewSignatureType(nil, nil, nil, types.NewTuple(rs...), nil, false))
+}
+
 func valueOnly(sig *types.Signature) bool {
 	var ok func(t types.Type, d int) bool
 	ok = func(t types.Type, d int) bool {
